@@ -177,11 +177,14 @@ func (r *RandomChoiceSelection) Select(pool UpstreamPool, _ *layer4.Connection) 
 		k = len(pool)
 	}
 	choices := make([]*Upstream, k)
-	for i, upstream := range pool {
+	// reservoir sampling over the available upstreams only
+	n := 0
+	for _, upstream := range pool {
 		if !upstream.available() {
 			continue
 		}
-		j := weakrand.Intn(i + 1)
+		j := weakrand.Intn(n + 1)
+		n++
 		if j < k {
 			choices[j] = upstream
 		}
@@ -421,14 +424,21 @@ func leastConns(upstreams []*Upstream) *Upstream {
 		return nil
 	}
 	var best []*Upstream
-	var bestReqs int
+	bestReqs := -1
 	for _, upstream := range upstreams {
+		if upstream == nil {
+			continue
+		}
 		reqs := upstream.totalConns()
 		if reqs == 0 {
 			return upstream
 		}
-		if reqs <= bestReqs {
+		if bestReqs == -1 || reqs < bestReqs {
+			// fewer connections than anything seen so far
 			bestReqs = reqs
+			best = best[:0]
+		}
+		if reqs == bestReqs {
 			best = append(best, upstream)
 		}
 	}
@@ -449,7 +459,7 @@ func hostByHashing(pool []*Upstream, s string) *Upstream {
 			continue
 		}
 		h := hash(up.String() + s) // important to hash key and server together
-		if h > highestHash {
+		if upstream == nil || h > highestHash {
 			highestHash = h
 			upstream = up
 		}
